@@ -1,6 +1,6 @@
 (* C04 -- thrift: Unmarshal(Marshal(v)) == v for the binary and compact protocols.
    Model: Thrift/Model.v (hand-written, tied by correspondence on random struct types). *)
-From Verif Require Import Base.GoInt Thrift.Model Thrift.Spec Thrift.ProofsB.
+From Verif Require Import Base.GoInt Thrift.Model Thrift.Spec Thrift.ProofsB Thrift.RoundTripCorollaries.
 
 (* for both protocols (strict and non-strict binary differ only in message headers, which the struct codec does not
    use), every supported struct type (field ids in any order and spacing, required/optional/enum, bools in nested and
@@ -11,3 +11,11 @@ Proof. exact ProofsB.t_roundtrip. Qed.
 (* the two protocols decode each other's logical content to the same value *)
 Theorem t_cross_protocol : t_cross_protocol_statement.
 Proof. exact ProofsB.t_cross_protocol. Qed.
+
+(* the round trip holds for EVERY fuel above the explicit bound len(Marshal(v)) + depth(type), not just for some fuel *)
+Theorem t_roundtrip_any_fuel : t_roundtrip_any_fuel_statement.
+Proof. exact RoundTripCorollaries.t_roundtrip_any_fuel. Qed.
+
+(* Marshal is injective up to tnorm: two values of the universe with the same bytes are the same value *)
+Theorem t_marshal_injective : t_marshal_injective_statement.
+Proof. exact RoundTripCorollaries.t_marshal_injective. Qed.
